@@ -55,6 +55,13 @@ def run(ctx, rep):
         rep.rule(rid, "no unreviewed panic site reachable from: " + desc, floor=1)
         if name in secs:
             rep.guarded(rid, lambda name=name, rid=rid, desc=desc: panic_audit.audit(rep, rid, fl, secs[name][0], name, li, stop=secs[name][1], describe=desc))
+    # the blueprint loader re-encodes what it has just decoded (`to_cbor().unwrap()`, reviewed as "flat-encoding a decoded
+    # program cannot fail"): that reason is the encoder/decoder agreement of C08's tables, so they are part of this verdict
+    from . import c08
+    rep.rule("R08-CONST", "whatever constant the flat decoder builds, the encoder accepts (discharges the loader's to_cbor().unwrap(); shared with C08)", floor=55)
+    rep.guarded("R08-CONST", lambda: c08.r_const(ctx.shape, rep))
+    rep.rule("R08-TERM", "whatever term the flat decoder builds, the encoder accepts (shared with C08)", floor=30)
+    rep.guarded("R08-TERM", lambda: c08.r_term(ctx.shape, rep))
     rep.rule("R15-TOTAL", "UPLC grammar actions contain no unwrap/expect/panic and index only under a reviewed guard (rule shared with C15)", floor=5)
     from . import c15
     rep.guarded("R15-TOTAL", lambda: c15.r_total(ctx.shape, rep, peg_grammar(ctx.shape.file(c15.G), "uplc")))
